@@ -849,9 +849,9 @@ class Interp:
                     out.append((s, ("tuple", ())))
                 continue
             s2 = s.fork()
-            s.conds.append(("true", c, frame.crate.span(e["sp"])))
+            s.conds.append(("true", c, frame.crate.span(e["sp"]), len(s.events)))
             out.extend(self.ev(frame, e["then"], s))
-            s2.conds.append(("false", c, frame.crate.span(e["sp"])))
+            s2.conds.append(("false", c, frame.crate.span(e["sp"]), len(s2.events)))
             if "else" in e:
                 out.extend(self.ev(frame, e["else"], s2))
             else:
@@ -1325,6 +1325,7 @@ class Interp:
                 return r
         # ---- opaque
         lv = tuple(self.load_ref(s, a) for a in args)
+        s.events.append(("Call", krate, name, callee, sp, dj.get("n", "")))
         if any(self.mentions_backend(a) for a in lv):
             s.events.append(("UnknownBackendUse", callee, sp))
         # mutation of by-reference state through &mut by unknown code: recorded as a store
